@@ -6,6 +6,7 @@ CONSTANTS
   PVals = {0, 1, 2, 3, 4, 5}
   LVals = {0, 1, 2, 3, 4}
   ForbSets = {{}, {3}}
+  HookExcs = {"badvalue", "hardware", "other"}
   Inits = {4, 13, 31}
 INVARIANT TypeOK
 PROPERTY AcceptedInside
